@@ -62,6 +62,9 @@ def judge_c03(d):
                 return "a routable destination (or any destination with the policy off) was refused: model " + model
             if impl.startswith("connect") and model.startswith("connect") and impl != model and not allow:
                 return "connected to %s, not to the first suitable answer %s" % (impl, model)
+            if impl in ("loopback", "nonroutable") and model not in ("loopback", "nonroutable"):
+                return ("the request was refused by the private-network policy (%s) although no resolver answer is an address the "
+                        "policy refuses (skipped answers are global IPv6 with IPv6 unavailable): the model gives %s" % (impl, model))
             if impl.startswith("attempts="):
                 return "number of connection attempts != 1: " + impl
     except Exception as e:  # malformed answer: undecided
@@ -126,6 +129,16 @@ def judge_c11(d):
         return "decoded requests differ from the 7.3 records of the concatenated stream (expected %s)" % model[:200]
     if t[1] in ("responded", "encreply"):
         return "reply/error matching or 7.4 encoding differs: expected %s" % model[:200]
+    if t[1] == "table":
+        ops = q.split("ops=")[1].split(";")
+        io, mo = impl.split(" | "), model.split(" | ")
+        for k, (a, b) in enumerate(zip(io, mo)):
+            if a != b:
+                short = [o if len(o) < 40 else o[:36] + ".." for o in ops[:k + 1]]
+                return ("live IcmpForwarder, request timeout 3000 ms, queue capacity 3, history %s: client %s was handed [%s] "
+                        "(type/code/id/seq), the waiter table (requester only, not after the timeout, not unrelated packets) gives [%s]"
+                        % (";".join(short), ops[k].split(".")[-1], a, b))
+        return "live IcmpForwarder history: %d observations, model %d" % (len(io), len(mo))
     return None
 
 
@@ -544,11 +557,17 @@ PROPS = {
              "v4/v6 with corner ids/seqs and payload classes (also verified by an independent RFC 1071 check in the harness); "
              "received packets: replies, errors quoting requests behind IPv4 headers with every IHL class and IPv6 extension-header "
              "chains with right/wrong lengths, truncations, exhaustive short strings over a reduced alphabet; 7.3 streams under all "
-             "1-cuts, byte-at-a-time and sampled multi-cuts",
+             "1-cuts, byte-at-a-time and sampled multi-cuts; 60 (thorough 400) histories through the real IcmpForwarder on raw "
+             "sockets bound to lo (skipped with a note when raw sockets are not permitted): echo requests from two clients to "
+             "127.0.0.1 (the kernel answers), injected echo replies with the same / shorter / longer / other data / other id, "
+             "injected ICMP errors (types 3, 11, 12) quoting a request, clock advances around the request timeout, and reads of "
+             "each client's queue (capacity 3), compared with the waiter-table model",
         explanation="theorems checksum_verifies (all payloads <= 65535 bytes), request_decode_segmentation, request_fields_faithful, "
                     "*_no_panic, v4_error_designates, reply_format, waiter-table invariants",
         trusted=["ICMPv6 checksum is computed by the kernel for raw ICMPv6 sockets (not modelled)",
-                 "waiter table: model tied to icmp_forwarder.rs by reading only (raw-socket suite not built yet)"],
+                 "waiter table: HashMap lookup with the prefix-tolerant Echo::eq is modelled as first match in insertion order; the "
+                 "suite keeps (identifier, sequence) pairs distinct except for empty-data requests (where the entry is replaced)",
+                 "ICMPv6 is not driven by the live suite (ipv6_available = false)"],
         assumptions=["two clients using the same identifier/sequence number with prefix-equal data share one waiter key "
                      "(Echo::eq); theorems about delivery are stated per matching waiter"],
     ),
